@@ -1333,6 +1333,8 @@ func SelectExpr(query *Query, current Map, expr *sqlparser.SelectExprs, opts ...
 				// Async functions return pointers
 				// It's a good idea to convert them back to value types
 				if valueRaw, ok := valueRaw.(*any); ok {
+					// what an earlier select item of the same name has produced
+					previous, replaces := data[name]
 					query.addPostProcessors(func() error {
 						if err != nil {
 							return err
@@ -1354,7 +1356,19 @@ func SelectExpr(query *Query, current Map, expr *sqlparser.SelectExprs, opts ...
 						// the call resolved to the omit marker (an effect-only argument such as
 						// a RAISE_WHEN that did not fire): like its synchronous form, no column
 						if _, ok := value.(Ommit); ok {
-							delete(data, name)
+							// the column an earlier item of the same name produced stays
+							for {
+								x, ok := previous.(*any)
+								if !ok {
+									break
+								}
+								previous = *x
+							}
+							if _, ok := previous.(Ommit); ok || !replaces {
+								delete(data, name)
+								return nil
+							}
+							data[name] = previous
 							return nil
 						}
 						data[name] = value
